@@ -15,6 +15,10 @@ def u_threading(ip):
     c = ip.ctx
     n = 3
     trace = []
+    # what a kernel reports about its transition (error code, acceptance probability, ...) is arbitrary: the hand-over does not depend on it
+    ip.opaque_attr["error_code"] = lambda ip_, v: ip_.uf("error_code_of", v, sort=Int)
+    ip.opaque_attr["acceptance_prob"] = lambda ip_, v: ip_.uf("acceptance_prob_of", v, sort=Real)
+    ip.opaque_attr["position_moved"] = lambda ip_, v: ip_.uf("position_moved_of", v, sort=Int)
     # built by the REAL constructor from kernels whose identifiers are not in alphabetical order
     seq = ip.call(ip.repo(f"{KS}::KernelSequence"), [[ghost_kernel(ip, i, trace, IDENTS[i]) for i in range(n)]], {})
     key, ms, ep = z3.Const("key", U), z3.Const("ms", U), sym_epoch_state(ip)
@@ -310,3 +314,10 @@ from pyvc.unit import reuse  # noqa: E402
 reuse("C13.tau2_transition", "C09.tau2_kernel_reads_the_state_it_is_handed", "C09")
 reuse("C13.group_value_from", "C09.group_values_are_read_from_the_given_state", "C09")
 reuse("C13.finite_discrete", "C09.finite_discrete_kernel_leaves_the_users_model_and_reads_the_given_state", "C09")
+
+# "the log-probability [in the returned state] is coherent with the stored parameter values": the stored total is the sum over ALL distribution nodes of the
+# model, also one that belongs to no variable (a soft constraint) - what the kernels compare is the model's joint density (same harness as
+# C02.bare_distribution_node_counts_in_log_prob)
+import contracts.c02  # noqa: E402,F401
+
+reuse("C02.bare_distribution_node_counts_in_log_prob", "C09.stored_log_prob_counts_every_distribution_node", "C09")
